@@ -32,7 +32,7 @@ def run_obligations(prop, obls, tier, seed):
     for o in obls:
         mod = importlib.import_module(o["module"])
         for si, cfg in enumerate(o["scenarios"][tier]):
-            for qn in (o.get("queries") or mod.QUERIES):
+            for qn in (o.get("queries_by_tier", {}).get(tier) or o.get("queries") or mod.QUERIES):
                 tasks.append((o["module"], cfg, qn, o.get("timeout_ms", {}).get(tier, 600000)))
                 meta[(o["module"], repr(cfg), qn)] = (o, si)
     workers = max(1, min(len(tasks), (os.cpu_count() or 4) - 2))
